@@ -12,10 +12,10 @@ Import ListNotations.
 Open Scope string_scope.
 Open Scope Z_scope.
 
-(* partial (true) statement: every v2 decoder — transaction bodies (json.Unmarshal + TransactionRequest.ToCore + Postings.Validate),
+(* partial (true) statement: every v2 decoder — transaction bodies (ajson.Unmarshal + TransactionRequest.ToCore + Postings.Validate),
    ScriptV1.ToCore, bulk bodies (BulkElement.UnmarshalJSON for the four actions), metadata bodies — is total without panic,
    for every JSON tree and every timestamp parser.  Structural: no bound on depth, width or magnitude. *)
-Theorem C38_total_partial : forall (parse_time : string -> option Z) (body : json),
+Theorem C38_total_partial : forall (parse_time : string -> option Z) (body : ajson),
   decode_v2_tx parse_time body <> Panic /\
   decode_scriptv1 body <> Panic /\
   decode_bulk parse_time body <> Panic /\
@@ -40,7 +40,7 @@ Print Assumptions C38_v1_panic_exactly.
    below — makes v1 Script.ToCore panic (replayed through the real router: HTTP 500 with an empty body) *)
 Theorem C38_refuted_v1_vars : exists body, decode_v1_script body = Panic.
 Proof.
-  exists (JObj [("plain", JStr "send [USD 1] (source = @world destination = @bob)"); ("vars", JObj [("x", JNum 1 None)])]).
+  exists (AJObj [("plain", AJStr "send [USD 1] (source = @world destination = @bob)"); ("vars", AJObj [("x", AJNum 1 None)])]).
   vm_compute. reflexivity.
 Qed.
 Print Assumptions C38_refuted_v1_vars.
@@ -60,15 +60,15 @@ Print Assumptions C38_rejected_before_store.
 
 (* non-vacuity: a well-formed body is accepted and committed; the same body with an invalid asset, with the amount as a string,
    and with a number where the timestamp should be are client errors with the state untouched *)
-Definition ex_body (asset amount ts : json) : json :=
-  JObj [("postings", JArr [JObj [("source", JStr "world"); ("destination", JStr "users:1"); ("asset", asset); ("amount", amount)]]);
-        ("timestamp", ts); ("metadata", JObj [("k", JStr "v")])].
+Definition ex_body (asset amount ts : ajson) : ajson :=
+  AJObj [("postings", AJArr [AJObj [("source", AJStr "world"); ("destination", AJStr "users:1"); ("asset", asset); ("amount", amount)]]);
+        ("timestamp", ts); ("metadata", AJObj [("k", AJStr "v")])].
 Definition ex_feat := {| f_moves := true; f_pcev := true; f_acc_hist := true; f_tx_hist := true; f_hash := true |}.
 Example C38_example :
   let pt := fun _ : string => Some 5 in
-  (exists s', handle_v2_create pt ex_feat 10 init_state (ex_body (JStr "USD/2") (JNum 18446744073709551617 None) (JStr "t")) "" false
+  (exists s', handle_v2_create pt ex_feat 10 init_state (ex_body (AJStr "USD/2") (AJNum 18446744073709551617 None) (AJStr "t")) "" false
               = (s', Answered (ROk 1 (Some 1) false))) /\
-  handle_v2_create pt ex_feat 10 init_state (ex_body (JStr "usd") (JNum 1 None) JNull) "" false = (init_state, Rejected EValidation) /\
-  handle_v2_create pt ex_feat 10 init_state (ex_body (JStr "USD") (JStr "1") JNull) "" false = (init_state, Rejected EDecode) /\
-  handle_v2_create pt ex_feat 10 init_state (ex_body (JStr "USD") (JNum 1 None) (JNum 1700000000 None)) "" false = (init_state, Rejected EDecode).
+  handle_v2_create pt ex_feat 10 init_state (ex_body (AJStr "usd") (AJNum 1 None) AJNull) "" false = (init_state, Rejected EValidation) /\
+  handle_v2_create pt ex_feat 10 init_state (ex_body (AJStr "USD") (AJStr "1") AJNull) "" false = (init_state, Rejected EDecode) /\
+  handle_v2_create pt ex_feat 10 init_state (ex_body (AJStr "USD") (AJNum 1 None) (AJNum 1700000000 None)) "" false = (init_state, Rejected EDecode).
 Proof. cbv zeta. split; [eexists; vm_compute; reflexivity|]. repeat split; vm_compute; reflexivity. Qed.
